@@ -545,3 +545,50 @@ Definition consec_ok (ls : list loc) : bool :=
   end.
 
 Definition lists_ok (groups : list (list loc)) : bool := forallb consec_ok groups.
+
+(* ------------------------------------------------------------------ the register that addresses the stack arguments *)
+(* In a frame with a re-aligned stack the function's stack arguments are read through the "SA" register (a copy of the
+   stack pointer taken in the prolog). The argument assignment behind the prolog may exchange or copy that register before
+   it uses it. [sa_step] follows, instruction by instruction in TEXTUAL order, the set of general purpose registers (group 0)
+   known to hold that address; a memory operand [r + k] of an inserted load is read as "argument area byte k" only while r is
+   in the set (ml/c05_driver.ml). Control flow of any kind empties the set, so textual order is execution order. *)
+Definition gp_id (l : loc) : option N := match l with LReg g i => if N.eqb g 0 then Some i else None | LSlot _ => None end.
+Definition id_mem (i : N) (m : list N) : bool := existsb (N.eqb i) m.
+Definition id_remove (i : N) (m : list N) : list N := filter (fun j => negb (N.eqb i j)) m.
+Fixpoint defs_remove (ds : list (loc * nat)) (m : list N) : list N :=
+  match ds with
+  | [] => m
+  | (l, _) :: ds' => defs_remove ds' (match gp_id l with Some i => id_remove i m | None => m end)
+  end.
+
+(* aw: width of an address in bytes *)
+Definition sa_step (aw : nat) (i : tinstr) (m : list N) : list N :=
+  match i with
+  | TOp _ _ ds => defs_remove ds m
+  | TMove d s w _ _ =>
+      match gp_id d with
+      | Some di =>
+          match gp_id s with
+          | Some si => if id_mem si m && Nat.leb aw w then di :: id_remove di m else id_remove di m
+          | None => id_remove di m
+          end
+      | None => m
+      end
+  | TSwap a b w =>
+      match gp_id a, gp_id b with
+      | Some ai, Some bi =>
+          let rest := id_remove ai (id_remove bi m) in
+          if Nat.leb aw w then (if id_mem bi m then [ai] else []) ++ (if id_mem ai m && negb (N.eqb ai bi) then [bi] else []) ++ rest else rest
+      | Some ai, None => id_remove ai m
+      | None, Some bi => id_remove bi m
+      | None, None => m
+      end
+  | _ => []
+  end.
+
+(* the set in front of instruction number n, from the set m0 in front of instruction 0 *)
+Fixpoint sa_at (aw : nat) (p : tprog) (m0 : list N) (n : nat) : list N :=
+  match n with
+  | O => m0
+  | S k => match nth_error p k with Some i => sa_step aw i (sa_at aw p m0 k) | None => [] end
+  end.
